@@ -566,7 +566,8 @@ def _check_laws(terms, out):
         out.check(len(req) == 1 and len(outk) == 1, law + ":interface-differs", f"{vs}")
         in_types = [T_EMPTY] if not m["req"] else [T_GRAD]
         for it in in_types:
-            if m["typ"]((it, None)) is None and max(_count(v, "diag") for v in vs) >= 2:
+            typed = [mm["typ"]((it, None)) is not None for mm in ms]
+            if not all(typed) and max(_count(v, "diag") for v in vs) >= 2:
                 continue  # ill-typed application with nested Diagonalize: quadratic blow-up of sizes, not attempted
             obs = []
             for tr, _ in built:
@@ -574,9 +575,15 @@ def _check_laws(terms, out):
                     obs.append(apply_and_observe(tr, keys, m, it))
                 except Exception as e:  # noqa: BLE001
                     obs.append(("raises:" + type(e).__name__, {}, {}))
-            ok = all(_same_obs(obs[0], o) for o in obs[1:])
-            out.check(ok, law + ":results-differ", f"{vs}: {[o[0] for o in obs]}")
-            if not obs[0][0].startswith("raises"):
+            # "whenever construction and application succeed": a grouping whose INTERMEDIATE union is ill-typed at the
+            # value level (e.g. two Jacobians with different row counts united before a Gradients joins them) may fail
+            # where the flat form succeeds; the law is claimed between the groupings that the model types
+            good = [o for o, t in zip(obs, typed) if t]
+            for o, t, v in zip(obs, typed, vs):
+                out.check(not (t and o[0].startswith("raises")), law + ":well-typed-variant-raises", f"{v}: {o[0]}")
+            ok = all(_same_obs(good[0], o) for o in good[1:]) if good else True
+            out.check(ok, law + ":results-differ", f"{vs}: {[o[0] for o in obs]} (typed: {typed})")
+            if good and not good[0][0].startswith("raises"):
                 out.nontrivial = True
 
 
